@@ -111,7 +111,12 @@ func ParseTime(v string) (Time, error) {
 	if err != nil {
 		return Time{}, err
 	}
+	t = t.Round(DatePrecision)
+	// rounding can carry into the year 10000, which DateFormat writes with five digits and cannot read back
+	if t.Year() > 9999 {
+		return Time{}, errors.New("invalid date: year outside of range [0,9999]")
+	}
 	return Time{
-		Time: t.Round(DatePrecision),
+		Time: t,
 	}, nil
 }
